@@ -31,6 +31,40 @@ func RunSelfGuard(conf core.Config) *core.Result {
 	}
 	for _, pkg := range pkgs {
 		info := pkg.TypesInfo
+		// helper methods that rewrite the receiver's header unconditionally: a
+		// top-level statement of the body assigns a field of the receiver
+		// (setCompact); reuseAs*, whose stores sit under `if recv.IsEmpty()`,
+		// keep the header of a non-empty receiver and are not among them
+		rewrites := map[types.Object]bool{}
+		for _, file := range pkg.Syntax {
+			for _, d := range file.Decls {
+				fd, ok := d.(*ast.FuncDecl)
+				if !ok || fd.Body == nil || fd.Recv == nil || len(fd.Recv.List) != 1 || len(fd.Recv.List[0].Names) != 1 {
+					continue
+				}
+				recv := info.Defs[fd.Recv.List[0].Names[0]]
+				for _, st := range fd.Body.List {
+					as, ok := st.(*ast.AssignStmt)
+					if !ok {
+						continue
+					}
+					for _, l := range as.Lhs {
+						e := ast.Unparen(l)
+						for {
+							sel, ok := e.(*ast.SelectorExpr)
+							if !ok {
+								break
+							}
+							if id, ok := ast.Unparen(sel.X).(*ast.Ident); ok && recv != nil && core.ObjOf(info, id) == recv {
+								rewrites[info.Defs[fd.Name]] = true
+								break
+							}
+							e = ast.Unparen(sel.X)
+						}
+					}
+				}
+			}
+		}
 		for _, file := range pkg.Syntax {
 			for _, d := range file.Decls {
 				fd, ok := d.(*ast.FuncDecl)
@@ -81,6 +115,12 @@ func RunSelfGuard(conf core.Config) *core.Result {
 				ast.Inspect(fd.Body, func(n ast.Node) bool {
 					if _, ok := n.(*ast.FuncLit); ok {
 						return false
+					}
+					if c, ok := n.(*ast.CallExpr); ok {
+						if sel, ok := c.Fun.(*ast.SelectorExpr); ok && isRecv(sel.X) && rewrites[info.Uses[sel.Sel]] {
+							stores = append(stores, c)
+						}
+						return true
 					}
 					as, ok := n.(*ast.AssignStmt)
 					if !ok {
